@@ -3,7 +3,8 @@
 An asyncssh client/server pair runs over the in-memory wire; after the keys
 are in effect one encrypted record of one direction is altered (bit flip in
 length / first block / body / tag, truncation, drop, duplicate, swap, splice
-of an earlier record, inserted bytes).  The victim's application must have
+of an earlier record, a record of the opposite direction sent under the same
+sequence number, inserted bytes).  The victim's application must have
 received exactly what the untouched records before it carried, nothing
 afterwards, and the connection must end with an error.
 """
@@ -177,6 +178,10 @@ def apply_tamper(recs: List[bytes], j: int, t: Dict[str, Any], block: int,
     if kind == 'insert':
         return [bytes(t['bytes'])] + recs[j:], j, '', 0, cut
 
+    if kind == 'reflect':
+        # a record of the OTHER direction takes the place of record j
+        return [t['_src']] + recs[j + 1:], j, t['_region'], 0, cut
+
     raise ValueError(kind)
 
 
@@ -217,6 +222,14 @@ def run_tamper(case) -> CaseResult:
         vevents = store[victim_side]
         base = len(vevents)
 
+        # the victim side talks first, so that it has sent records under
+        # the sequence numbers its peer is about to use
+        victim_chan = sessions[0].chan if direction == 'cs' else chan
+
+        for i in range(case.get('pre', 0)):
+            h.call(victim_chan.write, payload(200 + i, 3 + i))
+            h.pump()
+
         # queue the whole workload on the wire without delivering it
         sent = []
         for i, n in enumerate(case['writes']):
@@ -235,6 +248,22 @@ def run_tamper(case) -> CaseResult:
             return CaseResult(['no-records'], False)
 
         j = case['rec'] % len(recs)
+
+        if t['kind'] == 'reflect':
+            # the record the victim itself sent under the sequence number it
+            # now expects to receive (both ends are asyncssh: strict key
+            # exchange, sequence numbers restart at NEWKEYS); `off` also
+            # tries the neighbours
+            slog_, vlog_ = wire.log[send_side], wire.log[victim_side]
+            abs_j = len(slog_) - len(recs) + j
+            nk_s, nk_v = find_newkeys(slog_), find_newkeys(vlog_)
+            k = (nk_v or 0) + (abs_j - (nk_s or 0)) + t.get('off', 0)
+            aligned = nk_s is not None and nk_v is not None and \
+                nk_v < k < len(vlog_)
+            src = vlog_[k] if aligned else vlog_[-1]
+            t = dict(t, _src=src, _region='seq-aligned' if aligned and
+                     not t.get('off') else 'other-seq')
+
         tail, nbefore, region, _, cut = apply_tamper(recs, j, t, block,
                                                      maclen)
         vproto = wire.proto[victim_side]
@@ -274,7 +303,7 @@ def run_tamper(case) -> CaseResult:
             if cbc and region == 'body' and j >= 0 and \
                     len(recs[j]) - maclen <= block:
                 immediate = False
-        elif t['kind'] in ('drop', 'dup', 'swap', 'splice'):
+        elif t['kind'] in ('drop', 'dup', 'swap', 'splice', 'reflect'):
             immediate = len_clear and bool(tail)
             if t['kind'] == 'splice' and j == 0:
                 immediate = False       # no earlier record: garbage spliced
@@ -320,6 +349,18 @@ def run_tamper(case) -> CaseResult:
             raise Violation('silent', 'connection ended with %r after a '
                             '%s tamper' % (entry[1], t['kind']),
                             'silent:' + t['kind'])
+
+        if immediate and entry[1] != 'MACError':
+            # a complete record with an intact length field whose content is
+            # not what the sender authenticated for this position has to be
+            # rejected by the integrity check itself: any other error means
+            # its content was interpreted first
+            raise Violation(
+                'not-integrity-error',
+                'record with intact length (%s %s, %s/%s) ended the '
+                'connection with %s instead of a MAC error' %
+                (t['kind'], region, enc, mac, entry[1]),
+                'not-integrity-error:' + t['kind'])
 
         d_final = vdata()
 
@@ -374,9 +415,11 @@ def tamper_strategy():
         'kind': pick(['truncate', 'drop', 'dup', 'swap',
                                  'splice']),
         'pos': st.integers(0, 4000)})
+    refl = st.fixed_dictionaries({'kind': st.just('reflect'),
+                                  'off': pick([0, 0, 0, -1, 1])})
     ins = st.fixed_dictionaries({'kind': st.just('insert'),
                                  'bytes': st.binary(min_size=1, max_size=80)})
-    return st.one_of(flip, flip, other, other, ins)
+    return st.one_of(flip, flip, other, other, ins, refl)
 
 
 def sizes_for(block: int):
@@ -401,6 +444,7 @@ def strategy(tier: str):
                                         max_size=6)),
                 'eof': draw(st.booleans()),
                 'rec': draw(st.integers(0, 30)),
+                'pre': draw(pick([0, 0, 4, 12])),
                 'tamper': draw(tamper_strategy())}
 
     return build()
@@ -419,6 +463,7 @@ def grid(tier: str):
     tampers += [{'kind': k, 'pos': 1} for k in ('truncate', 'drop', 'dup',
                                                  'swap', 'splice')]
     tampers.append({'kind': 'insert', 'bytes': b'\x00\x00\x00\x0c' + b'A' * 12})
+    tampers.append({'kind': 'reflect', 'off': 0})
 
     for enc in encs:
         aead = enc_params(enc, 'hmac-sha1')[4]
@@ -430,7 +475,9 @@ def grid(tier: str):
                         for rec in (2, 3):
                             yield {'enc': enc, 'mac': mac, 'comp': comp,
                                    'dir': d, 'writes': [17, 0, 300, 5],
-                                   'eof': True, 'rec': rec, 'tamper': t}
+                                   'eof': True, 'rec': rec, 'tamper': t,
+                                   'pre': 12 if t['kind'] == 'reflect'
+                                   else 0}
 
 
 # --------------------------------------------------------------- setup ----
@@ -569,6 +616,7 @@ def _required():
         ['kind:flip:len', 'kind:flip:first', 'kind:flip:body',
          'kind:flip:tag', 'kind:truncate:cut', 'kind:drop', 'kind:dup',
          'kind:swap', 'kind:splice', 'kind:insert', 'dir:cs', 'dir:sc',
+         'kind:reflect:seq-aligned', 'kind:reflect:other-seq',
          'immediate', 'by-eof', 'data-before-tamper']
 
 
